@@ -31,7 +31,7 @@ def main():
         mdir = os.path.join(src, m)
         if not os.path.exists(os.path.join(mdir, "patch.diff")):
             continue
-        name = "%s-%s" % (pid, m)
+        name = "%s-%s" % (pid, m if len(sys.argv) < 4 else m.replace("m", sys.argv[3]))
         clean, mutant = scratch(), scratch()
         try:
             rc, out = run(["patch", "-p1", "-s", "-i", os.path.join(mdir, "patch.diff")], cwd=mutant)
